@@ -119,6 +119,13 @@ func GenScenario(r *hc.RNG, w Weights) *Scenario {
 	if r.Chance(w.FClose) {
 		sc.Env = append(sc.Env, Option{Kind: "fclose", ID: 2})
 	}
+	// sequential reuse of a message id (Conn.Invoke after bad_server_salt): monitor-only runs
+	if r.Chance(6) {
+		sc.Reuse = true
+		k := r.Intn(n)
+		sc.Calls = append(sc.Calls, Option{Kind: "start", ID: allIDs[k], Seq: sc.Calls[k].Seq, Body: sc.Calls[k].Body})
+		notif("nres", allIDs[k])
+	}
 	sc.Early = r.Chance(15)
 	sc.SendErr = r.Chance(15)
 	sc.Can = r.Chance(30)
